@@ -7,6 +7,7 @@ import (
 	"github.com/protobom/protobom/pkg/sbom"
 	"google.golang.org/protobuf/proto"
 	"google.golang.org/protobuf/reflect/protoreflect"
+	"google.golang.org/protobuf/types/known/timestamppb"
 	"pgregory.net/rapid"
 	"verif/harness/hx"
 )
@@ -80,13 +81,55 @@ func checkPrecedence(t fataler, what string, res, winner, loser *sbom.Node) {
 
 func cloneNL(nl *sbom.NodeList) *sbom.NodeList { return proto.Clone(nl).(*sbom.NodeList) }
 
-func genOperand(t *rapid.T, label string) *sbom.NodeList {
-	return hx.GenNodeList(t, label, hx.GraphOpts{WellFormed: rapid.Bool().Draw(t, label+".wf"), Extra: []string{"x", "y"}})
+// two id/type domains: five letters with two edge types (dense overlaps), and ids that extend one another by a
+// digit with all 45 edge-type numbers (keys built by concatenation collide there)
+var digitIDs = []string{"n", "n1", "n11", "n2", "lib", "lib1"}
+var allEdgeTypes = func() []sbom.Edge_Type {
+	var out []sbom.Edge_Type
+	for i := 0; i <= 44; i++ {
+		out = append(out, sbom.Edge_Type(i))
+	}
+	return out
+}()
+
+func genOperandIn(t *rapid.T, label string, digits bool) *sbom.NodeList {
+	o := hx.GraphOpts{WellFormed: rapid.Bool().Draw(t, label+".wf"), Extra: []string{"x", "y"}}
+	if digits {
+		o.IDs, o.Types, o.MaxEdges = digitIDs, allEdgeTypes, 8
+		o.Extra = []string{"n3"}
+	}
+	return hx.GenNodeList(t, label, o)
+}
+
+func genOperand(t *rapid.T, label string) *sbom.NodeList { return genOperandIn(t, label, false) }
+
+// nearEqualize rewrites, for one node id shared by a and b, b's node into a copy of a's node that differs only in
+// ways a coarse comparison cannot see (sub-second part of a date), so that "second operand wins" is observable
+// only through the exact value.
+func nearEqualize(t *rapid.T, a, b *sbom.NodeList) bool {
+	for i, nb := range b.Nodes {
+		na := nodeByID(a, nb.Id)
+		if na == nil || rapid.IntRange(0, 1).Draw(t, "nearEq") != 0 {
+			continue
+		}
+		c := proto.Clone(na).(*sbom.Node)
+		if c.ReleaseDate == nil {
+			na.ReleaseDate = &timestamppb.Timestamp{Seconds: 1700000000, Nanos: 5}
+			c.ReleaseDate = &timestamppb.Timestamp{Seconds: 1700000000, Nanos: 5}
+		}
+		c.ReleaseDate.Nanos = (c.ReleaseDate.Nanos + 7) % 1000000000
+		b.Nodes[i] = c
+		return true
+	}
+	return false
 }
 
 func c09Property(t *rapid.T) {
 	hx.Eval()
-	a, b, c := genOperand(t, "A"), genOperand(t, "B"), genOperand(t, "C")
+	digits := rapid.IntRange(0, 3).Draw(t, "digitDomain") == 0
+	a, b, c := genOperandIn(t, "A", digits), genOperandIn(t, "B", digits), genOperandIn(t, "C", digits)
+	hx.ClassIf(digits, "digit_suffixed_ids_all_edge_types")
+	hx.ClassIf(nearEqualize(t, a, b), "shared_node_differing_only_below_the_second")
 	sa, sb, sc := hx.GraphSets(a), hx.GraphSets(b), hx.GraphSets(c)
 
 	// classification
